@@ -79,7 +79,7 @@ def exc_isa(cls, parent):
 
 
 class Obligation:
-    __slots__ = ("oid", "kind", "pc", "goal", "line", "func", "note", "props", "result", "model", "time", "backend", "smt2", "cvc5")
+    __slots__ = ("oid", "kind", "pc", "goal", "line", "func", "note", "props", "result", "model", "time", "backend", "smt2", "cvc5", "subqueries", "failed_goal")
 
     def __init__(self, oid, kind, pc, goal, line, func, note=""):
         self.oid = oid
